@@ -9,13 +9,22 @@
 (*                                                                         *)
 (* Up to two vector objects exist (a main vector and a slice of it); n[o]  *)
 (* is the length (-1: no such object), content[o] the dense model and      *)
-(* cit[j] the position of a (partially consumed) iterator.  A slice refers *)
-(* to the SAME scalars as its parent wherever the implementation keeps a   *)
-(* scalar for the position (README: At returns a reference to the scalar,  *)
-(* Slice returns a slice, not a deep copy); which zero positions own a     *)
-(* scalar is representation state, so the sharing relation S is an input   *)
-(* of the contract step (resolved by the mechanism layer, see              *)
-(* SparseVector.tla, which also checks that non-zero scalars stay shared). *)
+(* cit[j] the position of a (partially consumed) iterator.                 *)
+(*                                                                         *)
+(* Slices.  README: At returns a reference to the scalar, Slice returns a  *)
+(* slice (not a deep copy).  A slice therefore denotes the SAME scalars as *)
+(* its parent - as far as scalars exist: a sparse vector need not keep a   *)
+(* scalar for a zero element, and it may drop one that became zero.  The   *)
+(* contract is exact about what follows from that and silent about the     *)
+(* rest:                                                                   *)
+(*   must   pairs <<p, q>> (position p of vector 1, q of its slice 2)      *)
+(*          holding the same NON-ZERO scalar ever since the slice was      *)
+(*          taken: a write through one is seen through the other;          *)
+(*   taint  positions whose (zero) scalar may or may not still be shared.  *)
+(*          Writing a non-zero value there would make the other vector's   *)
+(*          content depend on representation choices, so the contract      *)
+(*          says nothing about such a step and the specification does not  *)
+(*          take it (guard in ValueStepC).                                 *)
 (*                                                                         *)
 (* This module is used twice: as one half of the product specification     *)
 (* SparseVector.tla (mechanism refines contract, case generation) and by   *)
@@ -28,7 +37,9 @@ Idx(m) == 0..(m-1)
 
 VARIABLES n,        \* n[o]       length of object o, -1 = object does not exist
           content,  \* content[o] \in [Idx(n[o]) -> Int]
-          cit       \* cit[j] = [live, o, pos]
+          cit,      \* cit[j] = [live, o, pos]
+          must,     \* pairs <<p, q>> that certainly denote one (non-zero) scalar
+          taint     \* taint[o]: zero positions whose scalar is possibly shared
 
 (* ------------------------------------------------------------ helpers *)
 NZ(c) == {i \in DOMAIN c : c[i] # 0}
@@ -100,20 +111,52 @@ CRest(c, pos)       == Asc({i \in NZ(c) : i > pos})     \* what a live iterator 
 (* S: set of pairs <<p, q>>: position p of object 1 and position q of     *)
 (* object 2 denote the same scalar.                                        *)
 PartnerOf(S, o, q) ==   \* the position of object o sharing with position q of the other object
-  LET C == IF o = 1 THEN {pr[1] : pr \in {r \in S : r[2] = q}}
-                    ELSE {pr[2] : pr \in {r \in S : r[1] = q}}
+  LET C == {pr[o] : pr \in {r \in S : r[3 - o] = q}}
   IN IF C = {} THEN Done ELSE CHOOSE p \in C : TRUE
 Through(S, o, f, g) ==  \* g (other object) follows f (object o) at shared positions
   [q \in DOMAIN g |-> LET p == PartnerOf(S, o, q) IN IF p = Done THEN g[q] ELSE f[p]]
+RenamePairs(S, o, f) == {IF o = 1 THEN <<f[pr[1]], pr[2]>> ELSE <<pr[1], f[pr[2]]>> : pr \in S}
 
 (* ------------------------------------------------------ contract steps *)
 (* object o gets length nn and content nc; a second object sees the new   *)
-(* values of the scalars it shares with o (relation S after the step)     *)
+(* values of the scalars it shares with o (relation S)                    *)
 CommitC(Objs, o, nn, nc, S) ==
   /\ n' = [n EXCEPT ![o] = nn]
   /\ content' = [oo \in Objs |-> IF oo = o THEN nc
                                  ELSE IF n[oo] < 0 THEN <<>>
                                  ELSE Through(S, o, nc, content[oo])]
+
+(* an operation that changes VALUES of object o in place (positions keep their scalars) *)
+ValueStepC(Objs, o, nc) ==
+  LET dead == {pr \in must : nc[pr[o]] = 0}        \* shared scalars that become zero: sharing no longer certain
+  IN /\ \A i \in taint[o] : nc[i] = 0             \* the contract is silent about writes to possibly shared zeros
+     /\ CommitC(Objs, o, n[o], nc, must)
+     /\ must' = must \ dead
+     /\ taint' = [oo \in Objs |-> taint[oo] \cup {pr[oo] : pr \in dead}]
+(* an operation that MOVES the scalars of object o: the scalar of position k goes to f[k].  *)
+(* Sort moves zero elements in a way the contract does not fix: every zero may be tainted.  *)
+StructStepC(Objs, o, nc, f, sortlike) ==
+  /\ n' = n
+  /\ content' = [content EXCEPT ![o] = nc]
+  /\ must' = RenamePairs(must, o, f)
+  /\ taint' = [taint EXCEPT ![o] = IF sortlike THEN (IF taint[o] = {} THEN {} ELSE {i \in DOMAIN nc : nc[i] = 0})
+                                   ELSE {f[i] : i \in taint[o]}]
+(* object o is replaced by a new vector that shares nothing the contract knows of *)
+ReplaceStepC(Objs, o, nn, nc) ==
+  /\ n' = [n EXCEPT ![o] = nn]
+  /\ content' = [content EXCEPT ![o] = nc]
+  /\ must' = {}
+  /\ taint' = [oo \in Objs |-> {}]
+(* where the element of position i goes under Sort (stable among equal values) *)
+CSortMap(c, m, rev) == LET s == StableSortPairs(<<>>, SeqOf([i \in Idx(m) |-> <<i, c[i]>>], m), rev)
+                       IN [i \in Idx(m) |-> (CHOOSE t \in 1..m : s[t][1] = i) - 1]
+RECURSIVE CPermuteMapFrom(_, _, _, _)
+CPermuteMapFrom(f, pi, i, m) ==
+  IF i >= m THEN f
+  ELSE IF pi[i+1] > i
+       THEN CPermuteMapFrom([k \in DOMAIN f |-> IF f[k] = i THEN pi[i+1] ELSE IF f[k] = pi[i+1] THEN i ELSE f[k]], pi, i + 1, m)
+       ELSE CPermuteMapFrom(f, pi, i + 1, m)
+CPermuteMap(pi, m) == CPermuteMapFrom([k \in Idx(m) |-> k], pi, 0, m)
 
 IterDead == [live |-> FALSE, o |-> 1, pos |-> Done]
 (* iterators bound to an object that is replaced are abandoned *)
